@@ -1,9 +1,59 @@
-(** C03 — property theorems only. *)
+(** C03 — property theorems only (each closed by [exact] of a lemma of Proofs*.v and followed by
+    [Print Assumptions]).  Statements still open are in Open.v as [Definition ..._statement : Prop].
+    [run] is [fold_left step_state] from [init]; [log] is the ghost history of all inputs and
+    outputs; valid, vals, proposer, mkblock, cfg and me are arbitrary. *)
 From Coq Require Import List ZArith NArith Bool.
-From Kardia Require Import C03.Node C03.Proofs.
+From Kardia Require Import C03.Node C03.Spec C03.ProofsMono C03.ProofsInv C03.ProofsValid C03.Proofs C03.Open.
+Import ListNotations.
 Local Open Scope N_scope.
 
+(** At most one vote of each type and at most one proposal is ever signed per (height, round),
+    whatever inputs (votes, proposals, blocks, accepted timeouts, in any order) are fed. *)
+Theorem C03_one_vote_per_step :
+  forall valid vals proposer mkblock cfg me (ins : list input),
+    let l := log (run valid vals proposer mkblock cfg me ins) in
+    NoDup (map (fun v => (v_type v, v_height v, v_round v)) (signed_votes l)) /\
+    NoDup (map (fun p => (p_height p, p_round p)) (signed_proposals l)).
+Proof. exact one_vote_per_step. Qed.
+Print Assumptions C03_one_vote_per_step.
+
+(** (height, round, step) never decreases, from any state and for any input. *)
+Theorem C03_round_monotone :
+  forall valid vals proposer mkblock cfg me (s : nstate) (i : input),
+    let s' := step_state valid vals proposer mkblock cfg me s i in
+    height s < height s' \/
+    (height s = height s' /\
+     (round s < round s' \/ (round s = round s' /\ step_num (rstep s) <= step_num (rstep s')))).
+Proof. exact step_state_mono. Qed.
+Print Assumptions C03_round_monotone.
+
+(** Everything the node has signed lies at or before its current (height, round); a vote signed
+    for the current round is reflected in the step; a pending timeout is never for a future round
+    (the bookkeeping clause (1) of NInv, for every reachable state). *)
+Theorem C03_bookkeeping_invariant :
+  forall valid vals proposer mkblock cfg me (ins : list input),
+    Inv1 (run valid vals proposer mkblock cfg me ins).
+Proof. exact run_inv. Qed.
+Print Assumptions C03_bookkeeping_invariant.
+
+(** A non-nil prevote is signed only for a block that the node had been given in full before that
+    moment ([held (received pre) b]) and that passes validation against the node's own chain
+    state at the vote's height ([valid h b] = validateBlock: height, parent id, last-commit
+    verification, app/validator hashes, median time). *)
+Theorem C03_votes_only_valid :
+  forall valid vals proposer mkblock cfg me (ins : list input) post pre v,
+    log (run valid vals proposer mkblock cfg me ins) = post ++ EvOut (SignVote v) :: pre ->
+    v_type v = Prevote -> bid_is_zero (v_bid v) = false ->
+    exists b, held (received pre) b /\ b_hash b = bh (v_bid v) /\ valid (v_height v) b = true.
+Proof. exact votes_only_valid. Qed.
+Print Assumptions C03_votes_only_valid.
+
+(** The POLRound sanity check of setProposal is dead code: a correctly signed proposal for the
+    current height and round is accepted whatever its POLRound. *)
 Theorem C03_polround_check_is_dead :
-  forall pol r : N, (pol <? 1) && ((0 <? pol) || (r <? pol)) = false.
-Proof. exact pol_check_dead. Qed.
+  forall proposer p s,
+    prop s = None -> p_height p = height s -> p_round p = round s ->
+    p_signer p = Some (proposer (height s) (prop_round s)) ->
+    prop (recv_proposal proposer p s) = Some p.
+Proof. exact proposal_polround_unchecked. Qed.
 Print Assumptions C03_polround_check_is_dead.
